@@ -190,3 +190,22 @@ def parked_restart_family():
                     st += [["send", s, pasv], ["dconnect", s], ["send", s, "RETR " + verb.split(" ")[1]], ["deof", s]]
                     fam.append(st)
     return fam
+
+
+def midtransfer_family():
+    """Commands on the control connection while the session's own transfer is moving data (between two pieces of the upload,
+    or while the download's reader has stopped reading): the transfer goes on untouched and ends with its own reply."""
+    fam = []
+    s = 1
+    login = [["connect", s], ["send", s, "USER u1"], ["send", s, "PASS pw1"]]
+    cmds = [["PASV"], ["EPSV"], ["PWD"], ["MLST f"], ["TYPE I"], ["REST 2"], ["PASV", "PASV"], ["EPSV", "PWD"], ["CWD d"], ["XYZZY"], ["MLST zz"]]
+    for pasv in ("PASV", "EPSV"):
+        for c in cmds:
+            for verb, arg in (("STOR", "zz"), ("APPE", "f"), ("STOR", "f")):
+                st = login + [["send", s, pasv], ["dconnect", s], ["send", s, verb + " " + arg], ["dsend", s, [31, 32, 33]]]
+                st += [["send", s, x] for x in c] + [["dsend", s, [34, 35]], ["deof", s], ["send", s, "MLST " + arg], ["send", s, "PWD"]]
+                fam.append(st)
+            st = login + [["send", s, pasv], ["dconnect", s], ["gate", s, "read", 2], ["send", s, "RETR f"]] + [["send", s, x] for x in c]
+            st += [["release", s], ["deof", s], ["send", s, "PWD"]]
+            fam.append(st)
+    return fam
